@@ -12,7 +12,7 @@ P = {
     "streams": [{
         "name": "history", "pkg": "./internal/rules", "test": "TestVerifC06",
         "overlay": {"internal/rules/zz_verif_c06_test.go": "c06/c06_test.go"},
-        "eval_module": "Run.Eval_C06", "check_term": "check true",
+        "eval_module": "Run.Eval_C06", "check_term": "check false no_fix",
         "n_quick": 1200, "n_thorough": 30000, "shard": 40,
         "findings": {1: "C06-F1", 2: "C06-F2", 3: "C06-F3", 4: "C06-F4", 5: "C06-F5", 6: "C06-F6"},
     }],
@@ -59,6 +59,6 @@ P = {
     "assumptions": ["the driver constructs ruleImpl/routeImpl values directly (in-package): a rename of their fields breaks the driver, "
                     "not the property",
                     "lookups are made without a default rule (FindRule returns ErrNoRuleFound = 'no rule')",
-                    "C02-F1 (a failed free-wildcard node consults the parent's flag) is part of both models (`check true`); after its "
-                    "repair the check term becomes `check false`"],
+                    "lookups follow tree.go after the fix: commits e897fef (C02-F1), 88da16a (C03-F2), 16cf34b (C03-F5): check term "
+                    "`check false`; `check true` is the pinned behaviour (a failed free-wildcard node consults its parent's flag)"],
 }
